@@ -280,7 +280,11 @@ class _KernelTransformer(ast.NodeTransformer):
         body = loop.body
         var = loop.target.id
         stored = _stored_names(body)
-        loaded_after = _loaded_names(rest)
+        # names read after the loop before being assigned again there (straight-line scan)
+        after = _FirstUse()
+        for st_after in rest:
+            after.visit(st_after)
+        loaded_after = after.read_before_store
         fu = _FirstUse()
         fu.stored.add(var)
         for s in body:
